@@ -27,7 +27,7 @@ from WallGo.exceptions import WallGoError
 from symx import axioms, core, diff, npx
 from symx.core import AND, OR, NOT, Cond, Sym, eq, ge, gt, le, lt, ne
 from symx.harness import HarnessDef
-from props.hydrokit import ScipyStubs
+from props.hydrokit import ScipyStubs, tolerance_claims
 from props.c02 import make_hydro, arctan_axioms
 
 EXPLANATION = __doc__
@@ -179,6 +179,7 @@ def h_fastest_deflag(h):
     hy.doesPhaseTraceLimitvmax = [False, False]
     stale = list(hy.doesPhaseTraceLimitvmax)
     out = hy.fastestDeflag()
+    tolerance_claims(h, st, hy, "fastestDeflag: ")
     vtop = hy.vJ - hy.vBracketLow
     inside_at_top = AND(lt(TmF(vtop), hy.TMaxLowT), lt(TpF(vtop), hy.TMaxHighT))
     roots = [c for c in st.calls if c[0] == "root_scalar"]
@@ -227,6 +228,7 @@ def h_slowest_deton(h):
     hy.findMatching = lambda v: (None, None, hy.Tnucl, TmF(v))
     hy.TMaxLowT = h.real("TMaxLowT", 0.01, 1e4, default=1.1)
     out = hy.slowestDeton()
+    tolerance_claims(h, st, hy, "slowestDeton: ")
     # documented: "Returns 1 if Tm is above TMaxLowT for vw = 1"
     if _decided(gt(TmF(1), hy.TMaxLowT)):
         h.prove("T- above its range even at vw = 1 => sentinel 1 (no admissible detonation)",
